@@ -121,10 +121,14 @@ Proof.
     { assert (q * q * (o * o) = q * q * (N * (q * q))).
       { replace (q * q * (N * (q * q))) with (N * (q * q * (q * q))) by ring. rewrite Hq4. rewrite <- Hqo. ring. }
       apply Z.mul_reg_l with (q * q); [nia|assumption]. }
-    rewrite Ho2. assert (0 <= N) by (rewrite <- Hq4; nia). nia.
+    rewrite Ho2. assert (HN : 0 <= N) by (rewrite <- Hq4; nia).
+    apply Z.le_trans with (N * (4 * (L * L))); [apply Z.mul_le_mono_nonneg_l; assumption|].
+    assert (0 <= N * (L * L)) by (apply Z.mul_nonneg_nonneg; nia). lia.
   - destruct (triangle_plain_exact_lem mag v0 v1 v2 Ht) as [E F]. rewrite E in Hm. inversion Hm; subst l.
-    rewrite Forall_forall in F. fold n in F. rewrite (F d Hd). simpl.
-    assert (0 <= dot3 n n) by (destruct n as [[a b] c]; unfold dot3; nia). nia.
+    rewrite Forall_forall in F. fold n in F. rewrite (F d Hd).
+    assert (0 <= dot3 n n) by (destruct n as [[a b] c]; unfold dot3; nia).
+    change (0 * 0) with 0. apply Z.mul_nonneg_nonneg; [|assumption].
+    apply Z.mul_nonneg_nonneg; [|assumption]. lia.
 Qed.
 
 (* SCALE LAW: rescaling a representable facet by an integer s > 0 rescales the whole drawn model -- offset
@@ -140,7 +144,14 @@ Proof. destruct m as [[a b] c], n as [[x y] z]. unfold cross3, v3smul. apply v3_
 Lemma v3smul_zero_iff k v : k <> 0 -> (v3smul k v = (0, 0, 0) <-> v = (0, 0, 0)).
 Proof. destruct v as [[x y] z]. unfold v3smul. intros Hk. split; intros H; inversion H.
   - f_equal; [f_equal|]; nia.
-  - reflexivity. Qed.
+  - f_equal; [f_equal|]; ring. Qed.
+
+Lemma smul_comm_1000 s v : v3smul 1000 (scale_facet s v) = v3smul s (v3smul 1000 v).
+Proof. destruct v as [[x y] z]. unfold scale_facet, v3smul. apply v3_ext; ring. Qed.
+Lemma smul_add s a b : v3add (v3smul s a) (v3smul s b) = v3smul s (v3add a b).
+Proof. destruct a as [[x y] z], b as [[x' y'] z']. unfold v3smul, v3add. apply v3_ext; ring. Qed.
+Lemma smul_sub s a b : v3sub (v3smul s a) (v3smul s b) = v3smul s (v3sub a b).
+Proof. destruct a as [[x y] z], b as [[x' y'] z']. unfold v3smul, v3sub, v3add, v3neg. apply v3_ext; ring. Qed.
 
 Lemma triangle_scale_law_lem s mag v0 v1 v2 l : 0 < s ->
   make_triangle_x1000 mag v0 v1 v2 = Some l ->
@@ -154,9 +165,7 @@ Proof.
     - destruct (v3eqb (v3smul (s * s) (cross3 mag (tri_vec v0 v1 v2))) (0, 0, 0)) eqn:E2; [|reflexivity].
       apply v3eqb_eq in E2. apply v3smul_zero_iff in E2; [|nia]. apply v3eqb_eq in E2. congruence. }
   rewrite Hth. destruct (tri_thickened mag v0 v1 v2).
-  2:{ inversion Hm; subst l. cbn [map]. f_equal.
-      destruct v0 as [[x0 y0] z0], v1 as [[x1 y1] z1], v2 as [[x2 y2] z2]. unfold scale_facet, v3smul.
-      repeat f_equal; ring. }
+  2:{ inversion Hm; subst l. cbn [map]. rewrite !smul_comm_1000. reflexivity. }
   destruct (tri_repr v0 v1 v2) eqn:Hr; [|discriminate].
   pose proof (tri_repr_spec _ _ _ Hr) as Hspec. cbv zeta in Hspec. destruct Hspec as [Hq [Hq4 Hdiv]].
   set (n := tri_vec v0 v1 v2) in *. set (q := tri_root v0 v1 v2) in *. set (e := v3div n q) in *.
@@ -176,19 +185,20 @@ Proof.
     apply andb_true_iff. split; [apply andb_true_iff; split|].
     - apply Z.ltb_lt. nia.
     - apply Z.eqb_eq. reflexivity.
-    - apply v3eqb_eq. rewrite <- Hdiv at 2. destruct e as [[e0 e1] e2]. unfold v3smul. apply v3_ext; ring. }
-  rewrite Hr', Hroot, Hdiv'. inversion Hm; subst l. cbn [map]. f_equal.
-  destruct v0 as [[x0 y0] z0], v1 as [[x1 y1] z1], v2 as [[x2 y2] z2], e as [[e0 e1] e2].
-  unfold scale_facet, v3smul, v3sub, v3add, v3neg. repeat f_equal; ring.
+    - apply v3eqb_eq. rewrite <- Hdiv. destruct e as [[e0 e1] e2]. unfold v3smul. apply v3_ext; ring. }
+  rewrite Hr', Hroot, Hdiv'. inversion Hm; subst l. cbn [map].
+  rewrite !smul_comm_1000, !smul_add, !smul_sub. reflexivity.
 Qed.
 
 (* non-vacuity: representable thickened facets exist, in and out of the coordinate planes *)
 Lemma triangle_examples :
   make_triangle_x1000 (0, 0, 1) (0, 0, 0) (100, 0, 0) (0, 100, 0)
     = Some [(0, 0, -100); (100000, 0, -100); (0, 100000, -100); (0, 0, 100); (100000, 0, 100); (0, 100000, 100)] /\
-  tri_repr (0, 0, 0) (3, 2, -2) (1, 3, 3) = true /\ tri_vec (0, 0, 0) (3, 2, -2) (1, 3, 3) = (12, -11, 7) /\
-  make_triangle_x1000 (0, 0, 0) (0, 0, 0) (14, -7, 21) (7, 14, 0) <> None.
-Proof. vm_compute. repeat split; discriminate. Qed.
+  tri_vec (0, 0, 0) (21, -14, 0) (21, -12, -1) = (14, 21, 42) /\
+  make_triangle_x1000 (0, 0, 0) (0, 0, 0) (21, -14, 0) (21, -12, -1)
+    = Some [(-2, -3, -6); (20998, -14003, -6); (20998, -12003, -1006);
+            (2, 3, 6); (21002, -13997, 6); (21002, -11997, -994)].
+Proof. vm_compute. repeat split; reflexivity. Qed.
 
 (* RECORD: the code before 2fa0af8 drew the same facet 10 units (10% of its size) off its plane *)
 Lemma triangle_pre_2fa0af8_record :
